@@ -24,6 +24,9 @@ def cases(tier, rng, boost=1):
     yield _mk([[0.5, 0.5], [0.5, 0.5], [0.5, 0.5]], 'nonsquare')
     yield _mk([[1.0]], 'one_by_one')
     yield _mk([[0.5, 0.5, 0.0], [0.5, 0.5, 0.0]], 'nonsquare')
+    # an ergodic matrix with ONE row whose sum misses 1 by more than the 1e-8 tolerance (but by less than any relative tolerance someone might add)
+    for d_ in (1e-6, -1e-6, 2e-7, -3e-7):
+        yield _mk([[0.5, 0.25, 0.25], [0.25 + d_, 0.5, 0.25], [0.25, 0.25, 0.5]], 'nonstochastic_row')
     for n in range(3, 7):
         for extra, tag2 in (([[1]], 'wielandt+absorbing'), ([[0]], 'wielandt+unvisited')):
             for reps in (1, 2):
